@@ -272,6 +272,8 @@ class TypedNode(Node):
             for n in topnodes:
                 if n._data_id in own_ids:
                     raise UniqueConstraintError(f"Node.data already exists in parent: {n}")
+                if deep and (self is n or self.is_descendant_of(n)):
+                    raise ValueError(f"Cannot copy a branch below itself: {n}")
             if isinstance(before, int):  # (includes `True`)
                 # Every node is inserted at the same index, so add the last one first.
                 # (With `before=<node>` each node lands directly before that node, i.e.
